@@ -24,9 +24,15 @@ IntervalJoin(L, R, lower, upper) ==
   FlatMapSeq(LAMBDA x : MapSeq(LAMBDA y : Comb(x[1], y[1]),
                                SelectSeq(R, LAMBDA y : x[2] - lower <= y[2] /\ y[2] <= x[2] + upper)), L)
 
+(* keyed interval join: additionally the keys (value % variant-modulus given in e.variant) agree *)
+KIntervalJoin(L, R, lower, upper, m) ==
+  FlatMapSeq(LAMBDA x : MapSeq(LAMBDA y : Comb(x[1], y[1]),
+                               SelectSeq(R, LAMBDA y : x[1] % m = y[1] % m /\ x[2] - lower <= y[2] /\ y[2] <= x[2] + upper)), L)
+
 OneIter(e, i) ==
   CASE e.op = "join"  -> Join(e.left[i], e.right[i], e.ml, e.mr, e.variant)
     [] e.op = "ijoin" -> IntervalJoin(e.left[i], e.right[i], e.ml, e.mr)
+    [] e.op = "kijoin" -> KIntervalJoin(e.left[i], e.right[i], e.ml, e.mr, e.km)
     [] e.op = "zip"   -> ZipComb(e.left[i], e.right[i])
     [] e.op = "merge" -> e.left[i] \o e.right[i]
 Expected(e) == FlatSeq([i \in 1..Len(e.left) |-> OneIter(e, i)], 1)
@@ -36,20 +42,21 @@ Case(e) ==
       got == BagOf(e.res)
       missing == {x \in DOMAIN exp : Count(got, x) < exp[x]}
       extra == {x \in DOMAIN got : Count(exp, x) < got[x]}
-      prop == IF e.op \in {"join", "ijoin"} THEN "C08" ELSE "C09"
+      prop == IF e.op \in {"join", "ijoin", "kijoin"} THEN "C08" ELSE "C09"
       (* C05: the operator behaved as if its state had survived the FlushAndRestart: the result is *)
       (* what one iteration over the concatenated inputs would give                                 *)
       flat == [x \in {"left", "right"} |-> FlatSeq(IF x = "left" THEN e.left ELSE e.right, 1)]
       noReset == CASE e.op = "join"  -> Join(flat["left"], flat["right"], e.ml, e.mr, e.variant)
                    [] e.op = "ijoin" -> IntervalJoin(flat["left"], flat["right"], e.ml, e.mr)
+                   [] e.op = "kijoin" -> KIntervalJoin(flat["left"], flat["right"], e.ml, e.mr, e.km)
                    [] e.op = "zip"   -> ZipComb(flat["left"], flat["right"])
                    [] e.op = "merge" -> flat["left"] \o flat["right"]
       carried == Len(e.left) >= 2 /\ got # exp /\ got = BagOf(noReset)
       V(kind, xs) == PrintT(<<"VIOL", ToJson([prop |-> prop, kind |-> kind, job |-> e.id, index |-> l,
                               extra |-> [op |-> e.op, variant |-> e.variant, values |-> xs,
                                          got |-> e.res, expected |-> Expected(e)]])>>)
-  IN /\ (IF missing # {} THEN V(IF e.op \in {"join", "ijoin"} THEN "join_missing_pair" ELSE e.op \o "_missing", missing) ELSE TRUE)
-     /\ (IF extra # {} THEN V(IF e.op \in {"join", "ijoin"} THEN "join_extra_pair" ELSE e.op \o "_extra", extra) ELSE TRUE)
+  IN /\ (IF missing # {} THEN V(IF e.op \in {"join", "ijoin", "kijoin"} THEN "join_missing_pair" ELSE e.op \o "_missing", missing) ELSE TRUE)
+     /\ (IF extra # {} THEN V(IF e.op \in {"join", "ijoin", "kijoin"} THEN "join_extra_pair" ELSE e.op \o "_extra", extra) ELSE TRUE)
      /\ (IF carried THEN PrintT(<<"VIOL", ToJson([prop |-> "C05", kind |-> "carry_over", job |-> e.id, index |-> l,
                                    extra |-> [op |-> e.op, variant |-> e.variant, got |-> e.res]])>>) ELSE TRUE)
      /\ nviol' = nviol + (IF missing # {} THEN 1 ELSE 0) + (IF extra # {} THEN 1 ELSE 0) + (IF carried THEN 1 ELSE 0)
